@@ -138,7 +138,9 @@ def run_one(cfg, seed, n):
         else:
             vals = ex.explain_one(x, y)
         rec = {"vals": {str(k): fhex(v) for k, v in vals.items()}}
-        s = ex._storage
+        from harness.gen_explainer import find_part
+        from ixai.storage.base import BaseStorage
+        s = find_part(ex, BaseStorage, "_storage")
         if hasattr(s, "data_reservoirs"):
             rec["store"] = {f: sorted([[fhex(p["n1"]) for p in r.get_data()[0]] for r in rs.values()]) for f, rs in s.data_reservoirs.items()}
         else:
